@@ -23,6 +23,7 @@ type Issue struct {
 var ansiRe = regexp.MustCompile(`\x1b\[[0-9;]*[A-Za-z]`)
 var codeRe = regexp.MustCompile(`error\[([A-Z][0-9]+)\]`)
 var assertRe = regexp.MustCompile(`([a-z0-9_]+\.c):[0-9]+: (\w+): Assertion [^\n]*failed`)
+var panicMsgRe = regexp.MustCompile(`(panic|Error): index out of bounds\n`)
 var quotedRe = regexp.MustCompile(`'[^']*'|"[^"]*"`)
 var numRe = regexp.MustCompile(`[0-9]+`)
 
@@ -109,20 +110,23 @@ func judgeExec(p *Program, s Sink, x *Exec) []Issue {
 	failed := x.ExitCode != 0 || x.Signal != ""
 	out := x.Stdout
 	panicLine := "index out of bounds"
-	if x.Merged {
-		// stderr shares the descriptor: remove the panic message from the stream
-		var keep []string
-		found := false
-		for _, l := range strings.SplitAfter(out, "\n") {
-			if strings.HasPrefix(l, "panic:") {
-				found = true
-				x.Stderr += l
-				continue
-			}
-			keep = append(keep, l)
+	if x.Merged && p.Target == "wasm" && p.Panics {
+		// Node prints a multi-line report of the uncaught error (source line, caret,
+		// stack) after the program's own output: everything from the expected text on
+		// is that report
+		if strings.HasPrefix(out, p.Expected) {
+			x.Stderr += out[len(p.Expected):]
+			out = p.Expected
 		}
-		_ = found
-		out = strings.Join(keep, "")
+	} else if x.Merged {
+		// stderr shares the descriptor: take the panic message out of the stream. It
+		// may sit in the middle of a stdout line (stdout is block-buffered and is
+		// flushed in 4 KiB pieces, stderr is written at once): that interleaving is a
+		// property of sharing a descriptor, not of the program.
+		if loc := panicMsgRe.FindStringIndex(out); loc != nil {
+			x.Stderr += out[loc[0]:loc[1]]
+			out = out[:loc[0]] + out[loc[1]:]
+		}
 	}
 	if s.Healthy() {
 		if out != p.Expected {
@@ -408,9 +412,13 @@ func CheckC08(tier string, seed uint64) int {
 	}
 	for i := range progs {
 		r := core.Sub(seed, "c08", i)
-		progs[i] = Generate(r, maxOps, i%5 < 2)
-		sinks[i] = Sinks(core.Sub(seed, "c08", "sinks", i), allSinks)
+		target := "native"
 		if i%wasmEvery == wasmEvery-1 {
+			target = "wasm"
+		}
+		progs[i] = GenerateFor(r, maxOps, i%5 < 2, target)
+		sinks[i] = Sinks(core.Sub(seed, "c08", "sinks", i), allSinks)
+		if target == "wasm" {
 			// second configuration: the .wasm under Node with runtime/wasm/runtime.js
 			progs[i].Target = "wasm"
 			if !allSinks {
